@@ -174,6 +174,11 @@ def gen_vpop(repo):
     nopre, nopost = one(r'const\s+char\s*\*logmsg\[\]\s*=\s*\{\s*"([^"]*)"\s*,\s*addr->s\s*,\s*"([^"]*)"\s*,\s*NULL\s*\}\s*;\s*tarpit\(\)\s*;\s*int\s+result\s*=\s*net_writen\(logmsg\)\s*;', ap, 'no such user reply')
     if not re.search(r'return\s+result\s*\?\s*-result\s*:\s*-1\s*;\s*\}\s*return\s+0\s*;', ap):
         raise TranslateError('addrparse: return values changed')
+    tag = one(r'if\s*\(\s*strncasecmp\(\s*at\s*\+\s*intro\s*,\s*"([^"]*)"\s*,\s*strlen\("([^"]*)"\)\s*\)\s*==\s*0\s*\)\s*intro\s*\+=\s*strlen\("[^"]*"\)\s*;', ap, 'IPv6 tag of an address literal')
+    if tag[0] != tag[1]:
+        raise TranslateError('addrparse: IPv6 tag literals differ')
+    if not re.search(r'if\s*\(\s*\(\s*strncmp\(\s*at\s*\+\s*intro\s*,\s*xmitstat\.localip\s*,\s*liplen\s*\)\s*!=\s*0\s*\)\s*\|\|\s*\(\s*\*\(\s*at\s*\+\s*intro\s*\+\s*liplen\s*\)\s*!=\s*\'\]\'\s*\)\s*\)\s*\{\s*lookupdomain\s*=\s*NULL\s*;\s*j\s*=\s*0\s*;\s*\}\s*else\s*\{\s*lookupdomain\s*=\s*liphost\.s\s*;', ap):
+        raise TranslateError('addrparse: comparison of an address literal with the local IP changed')
     asx = strip_comments(read(repo, 'qsmtpd/addrsyntax.c'))
     if not re.search(r"if\s*\(\s*\(\s*addr->s\[len\]\s*>=\s*'A'\s*\)\s*&&\s*\(\s*addr->s\[len\]\s*<=\s*'Z'\s*\)\s*\)\s*addr->s\[len\]\s*=\s*addr->s\[len\]\s*\+\s*\(\s*'a'\s*-\s*'A'\s*\)\s*;", asx):
         raise TranslateError('addrsyntax: lower-casing of the address changed')
@@ -188,7 +193,7 @@ def gen_vpop(repo):
     out += n('VP_SLASH', slash) + n('VP_DOT', chr_lit(dot, 'dot')) + n('VP_COLON', chr_lit(colon, 'colon'))
     out += n('VP_DASH', chr_lit(dash, 'dash')) + n('VP_SCANDASH', dashc)
     out += n('VP_KEY_FIRST', kfirst) + n('VP_KEY_LAST', klast)
-    out += lst('VP_NOUSER_PRE', c_unescape(nopre)) + lst('VP_NOUSER_POST', c_unescape(nopost))
+    out += lst('VP_NOUSER_PRE', c_unescape(nopre)) + lst('VP_NOUSER_POST', c_unescape(nopost)) + lst('VP_IPV6TAG', c_unescape(tag[0]))
     out += nat('VP_PATH_MAX', sysc['PATH_MAX']) + nat('VP_NAME_MAX', sysc['NAME_MAX']) + nat('VP_CDBKEY', int(keysz))
     out += nat('VP_BOUNCE_MUL', int(bmul))
     out += 'Definition VP_QM_FLAGS : list nat := [%s].\n' % '; '.join(str(f) for f in flags)
